@@ -48,6 +48,16 @@ func repoDir() string {
 	return "/repo"
 }
 
+// matchKey: does the function key match one of the comma-separated patterns (exact, prefix*, all)?
+func matchKey(pat, k string) bool {
+	for _, pt := range strings.Split(pat, ",") {
+		if pt == "all" || k == pt || (strings.HasSuffix(pt, "*") && strings.HasPrefix(k, strings.TrimSuffix(pt, "*"))) {
+			return true
+		}
+	}
+	return false
+}
+
 func selectFuncs(p *Prog, pat string) []*FuncInfo {
 	var out []*FuncInfo
 	var keys []string
@@ -81,10 +91,7 @@ func cmdRun(args []string) {
 		os.Exit(2)
 	}
 	loadPreludeSigs(preludeSig)
-	var gens []*FuncGen
-	for _, fi := range selectFuncs(p, *funcs) {
-		gens = append(gens, p.genFunc(fi))
-	}
+	gens := generate(p, func(fi *FuncInfo) bool { return matchKey(*funcs, fi.Key) })
 	s, err := newSolver(*timeout, *all)
 	if err != nil {
 		fmt.Println(err)
